@@ -104,3 +104,12 @@ def stub_result(name):
         if ctx.branch(ok, f"stub {name}"): return Ok(())
         return Err(EnumV("ContractError", "Stubbed_" + name, ()))
     return h
+
+
+def call_query(I, ctx, ob, contract, fname, args, env, qmsg, msg_ty, crate, result_ty, querier=None):
+    """run a query function from MIR and record what the native replay (public `query` entry point) needs"""
+    pre = snapshot_storage(ctx.storage)
+    outcome, r = run_entry(I, ctx, fn(I, fname, crate), args, pre)
+    ob.info["replay"] = dict(contract=contract, entry="query", crate=crate, env=env, info=None, msg=qmsg, msg_ty=msg_ty, pre_storage=pre, post_storage=pre,
+                             outcome=outcome, result=r if outcome == "Ok" else None, result_ty=result_ty, querier=querier)
+    return outcome, r, pre
